@@ -126,7 +126,7 @@ dgstrs (trans_t trans, SuperMatrix *L, SuperMatrix *U,
     else if ( U->nrow != U->ncol || U->nrow < 0 ||
 	      U->Stype != SLU_NC || U->Dtype != SLU_D || U->Mtype != SLU_TRU )
 	*info = -3;
-    else if ( ldb < SUPERLU_MAX(0, L->nrow) ||
+    else if ( B->ncol < 0 || ldb < SUPERLU_MAX(0, L->nrow) ||
 	      B->Stype != SLU_DN || B->Dtype != SLU_D || B->Mtype != SLU_GE )
 	*info = -6;
     if ( *info ) {
